@@ -664,6 +664,33 @@ CHECKS["C05"]["note"] = CHECKS["C05"]["note"].rstrip() + (
     "statement). Known findings H13a (validate_ast RecursionError from ~150 nesting levels of selection sets / ~200 of input object literals), H13b (generic "
     "Executor RecursionError on a 200-fragment field-nested chain that validates).")
 
+# --- extension round `ex2` (C04 / C05) ---
+_sub("C05", "note",
+     " Still hypotheses of the chain: MergeSafe (declarative overlap rule on the executor's document; evaluated by the driver on every accepted document, "
+     "NOT yet derived from the silent OverlappingFieldsCanBeMerged visitor), NoIntrospection, non-empty fragment names (parser), WorldTyped (part of the "
+     "statement).",
+     " Hypotheses left in accepted_cannot_go_wrong_merged: NoIntrospection (`__schema` / `__type` are C15's model; `__typename` IS inside the theorem), "
+     "non-empty fragment names and aliases (parser guarantee: parsed_names_nonempty proves it for the parser MODEL's documents; the validator's documents are "
+     "built by the harness from the real parser's tree, so the transport is not a Lean statement), FieldOwners (only object / interface types carry "
+     "fields: fieldOwnersB, evaluated by the driver on every schema), DocChecksMemo (distinct selection-set identities, no meta field with a "
+     "sub-selection: the two static checks of C06's rule_overlapping_fields_memo_iff_wf), WorldTyped (part of the statement).")
+CHECKS["C05"]["text"] = CHECKS["C05"]["text"].rstrip() + (
+    " ADDED IN ROUND ex2: MergeSafe is NO LONGER A HYPOTHESIS - mergeSafe_of_clause derives it from the clause of 5.3.2 on the validator's document "
+    "(scope correspondence executor scope -> fields the validator's search collects: Lemmas/C05MergeScope.lean scope_coll; _same_arguments on distinct "
+    "argument names => equal coerced argument tables: Lemmas/C05MergeArgs.lean argsTable_of_sameArguments; overlapping parents are not mutually "
+    "exclusive: not_exclusive_of_overlap; _types_conflict = false on output types is sameShape; termination by C04's Ranked depth), "
+    "mergeSafe_of_silent from the silent MEMOISED overlap search /repo runs (C06's rule_overlapping_fields_memo_iff_wf) plus the clauses of seven "
+    "other silent rules, and accepted_cannot_go_wrong_merged: all 26 rule visitors silent (C06.SilentM) => no internal exception, without MergeSafe. "
+    "parsed_names_nonempty / lexed_names_nonempty: fragment names, aliases, field and spread names of parse(text) (lexer model + parser model, all "
+    "flags) are non-empty. Named probes for two outside reports (corr/C04_hunt1.py is C04's; C05-1 of the hunter is C17's documented refusal).")
+_add("C04", "named probes of two outside reports (corr/C04_hunt1.py, no randomness): exponential fragment expansion in the executor's collect_fields "
+            "(node multiplicity 2**n at n = 6, 9, 12 on a validated document with ONE field node) and `@skip(if: true)` next to an `@include` that cannot "
+            "be coerced (field / inline fragment / spread, both executors).",
+     "Known findings H14 (collect_fields expands a fragment once per sibling inline spread while the visited set is empty: 2**n nodes, the 1.7 kB document "
+     "with n = 30 is never answered; the one-line repair contradicts the modelled `_seen_fragments` quirk), H15 (both directives are evaluated eagerly, "
+     "so a true @skip does not protect from an uncoercible @include; the repair changes modelled behaviour of C04 / C19).")
+
+
 
 def _add_rt(k, text=None, note=None):
     if text:
